@@ -11,6 +11,7 @@ from common import cL, cN, cT, cZ
 sys.path.insert(0, common.VERIF + "/translator")
 PID = "C14"
 PARTS = ["nested_samples", "weights", "evidence", "counts"]       # what the property names
+ALL_PARTS = PARTS + ["posterior"]     # + the posterior samples FlowSampler.run draws afterwards (consumers in posterior.py)
 KEY_UNKNOWN_POOL = "C14:user-pool-of-unknown-size"
 
 GEN_HDR = ("From Coq Require Import String.\nFrom Coq Require Import List ZArith Bool Arith.\nImport ListNotations.\n"
@@ -77,6 +78,30 @@ def run_cfgs(tier, seed):
             [dict(sb, name=f"std_{tag}_other_process", n_pool=2, group=f"std_{tag}", what=f"seed {sd}: a different process, n_pool=2"),
              dict(ib, name=f"ins_{tag}_ref", repeat=2, group=f"ins_{tag}", what=f"seed {sd}: same process twice")],
         ]
+    # coverage of the randomness consumers of the usage table: one configuration per proposal class / latent prior /
+    # reparameterisation / training option / posterior method, each run twice in one process
+    cov = [
+        ("analytic", dict(extra={"analytic_priors": True}), "analytic_priors=True (AnalyticProposal)"),
+        ("augmented", dict(extra={"flow_proposal_class": "augmentedflowproposal", "augment_dims": 1}), "AugmentedFlowProposal"),
+        ("nball", dict(extra={"latent_prior": "uniform_nball"}), "latent_prior=uniform_nball"),
+        ("gaussian", dict(extra={"latent_prior": "gaussian", "constant_volume_mode": False}), "latent_prior=gaussian"),
+        ("uniform", dict(extra={"latent_prior": "uniform", "constant_volume_mode": False}), "latent_prior=uniform"),
+        ("flowprior", dict(extra={"latent_prior": "flow", "constant_volume_mode": False}), "latent_prior=flow"),
+        ("angle", dict(model="angle", extra={"reparameterisations": {"phi": {"reparameterisation": "angle"}, "y": "default"}}),
+         "angle reparameterisation (radial draws)"),
+        ("inversion", dict(extra={"reparameterisations": {"x": {"reparameterisation": "inversion", "detect_edges": True},
+                                                          "y": "default"}}), "boundary inversion"),
+        ("noise", dict(extra={"reset_permutations": 1, "reset_weights": 1,
+                              "training_config": {"noise_type": "constant", "noise_scale": 0.01, "use_dataloader": False}}),
+         "training noise, flow resets, no dataloader"),
+        ("multinomial", dict(run_kwargs={"posterior_sampling_method": "multinomial_resampling"}),
+         "multinomial posterior resampling"),
+    ]
+    covc = [[], [], [], []]
+    for j, (tag, kw_, what) in enumerate(cov):
+        covc[j % 4].append(dict({"sampler": "std", "seed": seed + 3}, name=f"cov_{tag}_ref", repeat=2, group=f"cov_{tag}",
+                                what=f"{what}: same process twice", **kw_))
+    children += covc
     if not q:
         s2 = {"sampler": "std", "seed": seed + 10, "nlive": 100, "max_iteration": 300}
         i2 = {"sampler": "ins", "seed": seed + 10, "nlive": 80, "max_iteration": 5}
@@ -200,11 +225,9 @@ def run(chk):
             if c is ref[0] and k == 0:
                 continue
             what = c["what"] if not (c is ref[0]) else "same process, second run"
-            diff = [p for p in PARTS if rep["parts"][p] != refd[p]]
+            diff = [p for p in ALL_PARTS if rep["parts"][p] != refd[p]]
             chk.nontriv((g, c["name"], k))
             chk.count("compared:" + what)
-            if rep["parts"].get("posterior") != refd.get("posterior"):
-                chk.count("posterior samples differ (not part of the property's list)")
             if diff:
                 key_ = c.get("finding") or f"C14:{c['sampler']}:{c['name'].split('_', 1)[1]}"
                 if c.get("finding"):
@@ -213,12 +236,30 @@ def run(chk):
                          f"(log Z {ref[2]['logZ']} -> {rep['logZ']}, evaluations {ref[2]['evals']} -> {rep['evals']})",
                          {"reference": ref[0], "run": c, "observed": {"reference": ref[2], "run": rep}})
             if not c.get("finding"):
-                for p in PARTS:
+                for p in ALL_PARTS:
                     labels.append(f"{c['name']}[{k}].{p}")
                     ds.append((len(labels) - 1, int(rep["parts"][p], 16), int(refd[p], 16)))
         coq_groups += ds
         chk.sample({"group": g, "reference": {k: v for k, v in ref[2].items() if k != "parts"},
                     "reference_digests": refd, "members": [c["name"] for c, _, _ in members]})
+    # which randomness consumers of the table did the runs execute? (recorded by wrappers around the numpy / torch /
+    # scipy entry points in the children)
+    executed = set()
+    for r in results.values():
+        for rep in r["reps"]:
+            executed |= set(rep.get("sites", []))
+    if entries is not None:
+        def short(site):
+            f, _, q_ = site.partition("::")
+            return f + "::" + q_.split(".")[-1]
+        consumers = sorted({short(site) for k_, site, d, _ in entries
+                            if k_ == "rand" and d in ("NumpyGlobal", "TorchGlobal", "ScipyGlobal")})
+        hit = [c_ for c_ in consumers if c_ in executed]
+        missed_sites = [c_ for c_ in consumers if c_ not in executed]
+        chk.distribution["table consumers (numpy/torch/scipy call sites, by function) executed by the run groups"] = \
+            f"{len(hit)} of {len(consumers)}"
+        chk.notes.append("consumer functions of the table not executed by any run group (an unseeded consumer there is "
+                         "reported by tie A alone): " + ", ".join(missed_sites))
     # sensitivity: another seed must change the digests
     for nm, refnm in (("std_otherseed", "std_ref"), ("ins_otherseed", "ins_ref")):
         a, b = results.get(nm), results.get(refnm)
@@ -231,7 +272,7 @@ def run(chk):
         txt = GEN_HDR + f"Definition gs : list (Z * list (nat * Z)) := {cL(lits)}.\nEval vm_compute in (groups_bad gs).\n"
         ok, evals, err = chk.coq_run("digests", txt, timeout=300)
         bad = [labels[i] for i in common.parse_nat_list(evals[0])] if ok and len(evals) == 1 else []
-        chk.oblige(f"correspondence: digests of nested samples / weights / evidence / counts of every run in a group equal "
+        chk.oblige(f"correspondence: digests of nested samples / weights / evidence / counts / posterior samples of every run in a group equal "
                    f"the reference run's, as C14_par_independent and C14_function_of_seed_stream say ({len(lits)} comparisons)",
                    "correspondence", ok and not bad, err or "differ: " + "; ".join(bad[:8]))
         chk.traces += len(lits)
@@ -288,7 +329,7 @@ def replay(data):
             print(r.stderr[-800:])
             return 1
         a, b = [x["reps"][0] for x in json.loads(r.stdout)["runs"]]
-        diff = [p for p in PARTS if a["parts"][p] != b["parts"][p]]
+        diff = [p for p in ALL_PARTS if a["parts"][p] != b["parts"][p]]
         print(json.dumps({"reference": {k: v for k, v in a.items() if k != "parts"}, "run": {k: v for k, v in b.items() if k != "parts"},
                           "differing": diff}))
         bad_seed = [x for x in (a, b) if x.get("recorded_seed") != x.get("requested_seed")]
